@@ -29,6 +29,7 @@ import Hy.Drv.C18Mgr
 import Hy.Drv.Relay
 import Hy.Drv.Auth
 import Hy.Drv.Masq
+import Hy.Drv.ClientUdp
 
 open Hy.Drv
 
@@ -53,6 +54,7 @@ def main (args : List String) : IO UInt32 := do
   match args with
   | ["frame"] => loopPure stdin stdout Frame.step; return 0
   | ["speedtest"] => loopPure stdin stdout Speedtest.step; return 0
+  | ["cudp"] => loopState stdin stdout ClientUdp.stepLine ClientUdp.initSt; return 0
   | ["rate"] => loopPure stdin stdout Rate.step; return 0
   | ["frag"] => loopPure stdin stdout Frag.step; return 0
   | ["defrag"] => loopState stdin stdout Frag.stepSt Frag.init; return 0
